@@ -2,6 +2,7 @@ import JominiModel.Model.BinLexer
 import JominiModel.Model.BinReader
 import JominiModel.Spec.BinLexer
 import JominiModel.Proofs.BinLexer
+import JominiModel.Proofs.Buffer
 import JominiModel.Generated.Tables
 /-
 C08 — Streaming binary reader equals the slice lexer; token encoding round-trips.
@@ -63,5 +64,42 @@ theorem C08_prefix_stable (w s : Bytes) :
 example : readToken [0x0c, 0, 1, 0, 0, 0] = .ok (.i32 1, []) := by rfl
 example : readToken [0x43, 2, 4, 0, 0, 0, 0, 0, 0, 0, 0, 0, 0, 0, 0, 0, 0, 0, 0, 0, 0, 0, 0, 0, 0, 0] = .error .invalidRgb := by
   rfl
+
+/-- `Buffer_refines`: the concrete `BufferWindow` (memory of `cap` bytes, `start`, `end`,
+`prior_reads`) refines the abstract view "position, window contents, undelivered bytes".
+The invariant `Buf.Inv` = `start ≤ end ≤ |mem|` (`|mem| = cap` in builder mode) and
+`window ++ undelivered = data.drop position` is preserved by `fill_buf` in each of its
+outcomes — slice mode `Ok(0)`, `BufferFull`, a successful read (which appends exactly the
+delivered bytes to the window), and a *failed* read (window contents, position and
+undelivered bytes all unchanged) — and by `advance n` for `n` inside the window (which drops
+`n` bytes from the window and adds `n` to the position).  Also the C20 clause "a failed read
+delivers nothing and the invariant survives". -/
+theorem C08_Buffer_refines (b : Buf) (src : Src) (data : Bytes) (h : Buf.Inv b src data)
+    (hwf : Src.WfSched src.sched) :
+    ((b.cap = 0 ∧ b.fillBuf src = (.ok 0, b, src)) ∨
+     (0 < b.cap ∧ b.cap ≤ b.windowLen ∧ b.fillBuf src = (.error .bufferFull, b, src)) ∨
+     (0 < b.cap ∧ b.windowLen < b.cap ∧ ∃ n b' src', b.fillBuf src = (.ok n, b', src') ∧
+       Buf.Inv b' src' data ∧ b'.position = b.position ∧ b'.cap = b.cap ∧
+       b'.window = b.window ++ src.rest.take n ∧ b'.windowLen = b.windowLen + n ∧
+       src'.rest = src.rest.drop n ∧ n ≤ src.rest.length ∧
+       src'.delivered = src.delivered + n ∧ Src.WfSched src'.sched ∧ (n = 0 → src.rest = [])) ∨
+     (0 < b.cap ∧ b.windowLen < b.cap ∧ ∃ b' src', b.fillBuf src = (.error .io, b', src') ∧
+       Buf.Inv b' src' data ∧ b'.position = b.position ∧ b'.cap = b.cap ∧ b'.window = b.window ∧
+       b'.windowLen = b.windowLen ∧
+       src'.rest = src.rest ∧ src'.delivered = src.delivered ∧ Src.WfSched src'.sched)) ∧
+    (∀ n, n ≤ b.windowLen → ∃ b', b.advance n = some b' ∧ Buf.Inv b' src data ∧
+      b'.window = b.window.drop n ∧ b'.position = b.position + n ∧ b'.cap = b.cap ∧
+      b'.windowLen = b.windowLen - n) ∧
+    (∀ n, b.windowLen < n → b.advance n = none) :=
+  ⟨Buf.fillBuf_cases b src data h hwf, fun n hn => Buf.advance_refines b src data h n hn,
+   fun n hn => Buf.advance_none b n hn h.se⟩
+
+/-- the invariant holds initially, for a built reader over any schedule and in slice mode -/
+theorem C08_Buffer_refines_init (buffer data : Bytes) (sched : List Step) :
+    Buf.Inv (Buf.build buffer) (Src.new data sched) data ∧
+    Buf.Inv (Buf.fromSlice data) (Src.new [] []) data :=
+  ⟨Buf.inv_build buffer data sched, Buf.inv_fromSlice data⟩
+
+example : Src.WfSched [.give 3, .fail, .give 1, .failForever] := by simp [Src.WfSched]
 
 end Jomini.Props.C08
